@@ -104,6 +104,7 @@ func runC12(s *kernel.Sim) {
 		s.Knobs["key_params"] = "owner,repo"
 	}
 	type key struct{ m, u, id string }
+	keyOf := map[string]key{} // key string -> key
 	keyStr := func(k key) string {
 		if throttling {
 			return k.m + " " + k.u
@@ -123,6 +124,7 @@ func runC12(s *kernel.Sim) {
 		n++
 		body := fmt.Sprintf("body-%d-%s", n, pads[tp.Choose(len(pads))])
 		st := &c12stored{key: keyStr(k), at: s.Now(), size: len(body), limitMB: float64(cacheCfg.MaxCacheSizeMegabytes), seq: s.Seq()}
+		keyOf[st.key] = k
 		hdr := map[string]string{"X-N": fmt.Sprint(n)}
 		raName := "Retry-After" // as configured; sometimes in another letter case, as a proxy may hand it over
 		if throttling && tp.Chance(1, 4) {
@@ -314,7 +316,23 @@ func runC12(s *kernel.Sim) {
 			k    key
 		}
 		ops := make([]opT, k)
+		// a quarter of the groups consist of readers of entries that are still fresh:
+		// those are the ones that can be held across the entry's expiry
+		var fresh []key
+		if k > 1 && tp.Chance(1, 4) {
+			for _, b := range sortedKeys(stored) {
+				if st := stored[b]; st.at+st.ttl > s.Now() && len(fresh) < 6 {
+					if kk, ok := keyOf[st.key]; ok {
+						fresh = append(fresh, kk)
+					}
+				}
+			}
+		}
 		for i := range ops {
+			if len(fresh) > 0 {
+				ops[i] = opT{false, fresh[tp.Choose(len(fresh))]}
+				continue
+			}
 			ops[i] = opT{tp.Chance(2, 5), pickKey()}
 			// concurrent stores for one key (both pass the "already cached?" check)
 			if i > 0 && tp.Chance(1, 2) {
@@ -351,7 +369,7 @@ func runC12(s *kernel.Sim) {
 				}
 				// a reader held at a lock site while a stored entry reaches its expiry
 				// (the entry's own sleeper removes it meanwhile)
-				if allReaders && st > 0 && tp.Chance(1, 8) {
+				if allReaders && st > 0 && tp.Chance(1, 4) {
 					var exp []time.Duration
 					for _, b := range sortedKeys(stored) {
 						if e := stored[b].at + stored[b].ttl; e >= s.Now() && len(exp) < 8 {
